@@ -99,6 +99,11 @@ def run(alg: str, q: dict, p: dict, shared: dict = None):
         assert np.all(Y == np.round(Y))
         Y = Y.astype(np.int64)
     X = ttb.tensor(Y)
+    if alg == "hosvd" and p.get("dtype", "float") == "int":
+        # the decomposition is homogeneous: the same counts times 60 kept in 16 bits (every entry fits, their products
+        # do not); the factor is taken out of the result again
+        X = ttb.tensor((Y * 60).astype(np.int16))
+        c = c * 60
     if p["holder"] == "sparse":
         X = X.to_sptensor()
     order = [inv[m] for m in BASE_ORDER[N]]
@@ -116,7 +121,8 @@ def run(alg: str, q: dict, p: dict, shared: dict = None):
             elif alg.startswith("cp_apr"):
                 init = same_object("k", lambda: ttb.ktensor([a.copy() for a in st], np.ones(ranks))) if p["start"] == "given" else "random"
                 M, _, out = ttb.cp_apr(X, ranks, algorithm=alg[7:], stoptol=1e-4, maxiters=q["maxiters"], init=init,
-                                       maxinneriters=q.get("maxinner", 3), printitn=prn, printinneritn=prn)
+                                       maxinneriters=q.get("maxinner", 3), printitn=prn, printinneritn=prn,
+                                       stoptime=(0.0 if q.get("stoptime0") else 1e6))
                 full, fit = np_full_k(M.weights, M.factor_matrices), out["obj"]
                 iters = int(np.asarray(out["kktViolations"]).size)
             elif alg == "tucker_als":
@@ -242,6 +248,7 @@ def main(tier: str) -> int:
                             q = {"shape": shape, "rank": 2, "dseed": sd + 3 * si + rep + mi, "maxiters": mi,
                                  "maxinner": [1, 3, 10][(mi + rep) % 3], "empty_slice": bool((mi + si) % 2 == 0 and alg.startswith("cp_apr")),
                                  "zero_row": bool((mi + si + rep) % 3 != 0 and alg.startswith("cp_apr")),
+                                 "stoptime0": bool((mi + si + rep) % 2 == 1 and alg.startswith("cp_apr")),
                                  "tol": [0.3, 0.05, 0.6][mi % 3], "sequential": bool((mi + rep) % 2)}
                             behaviours.append({"alg": alg, "q": q, "start": start, "pres": pres})
     # long L-BFGS-B runs (stopped by a convergence test, not by the iteration limit): a fresh option object against one
